@@ -147,6 +147,7 @@ def mon_c12(rec, F, weights, params, x0, y0, filter_policy):
     # the first announced iterate is the transformed start
     rx, ry = T.transform_sol(np.asarray(x0, dtype=float), np.asarray(y0 if y0 is not None else np.zeros(F.m), dtype=float))
     first = tr[0].it_in if tr else fin
+    rx, ry = rx.astype(params.dtype), ry.astype(params.dtype)  # working precision of the solve
     if not (np.array_equal(first.x, rx) and np.array_equal(first.y, ry)):
         out.append(V("C12|first_iterate", f"first iterate {first.x.tolist()},{first.y.tolist()} != transformed start {rx.tolist()},{ry.tolist()}"))
     changes = 0
